@@ -111,14 +111,15 @@ class SignalSetterProtocol(Protocol):
 
 
 class SigHandlerProtocol(Protocol):
-    """A handler of the application, called by urwid's handler that replaced it (chaining): opaque -- it may raise, and
-    may install a SIGTSTP handler of its own (the case the code's comment names)."""
+    """A handler of the application, called by urwid's handler that replaced it (chaining): opaque -- it may raise, and,
+    called while this screen's SIGTSTP handler is not installed (from _sigcont_handler), may install a SIGTSTP handler of
+    its own (the case the code's comment names).  Rely: it does not replace handlers this screen has installed."""
     kind = "SigHandler"
     methods = {}
 
     def call(self, ip, st, f, args, kwargs):
         st.event("app-handler", f, tuple(args), dict(table(st)))
-        k = st.fork(3)
+        k = st.fork(2 if isinstance(table(st)[TSTP], FnVal) else 3)
         if k == 1:
             raise PyRaise(SExc(Exception, ("<raised by the application's signal handler>",), site="application signal handler"))
         if k == 2:
@@ -181,11 +182,13 @@ def _installed_state(st, o, hooked):
     return orig
 
 
-def installed(st, s, orig):
-    """Checked form of the same state (call-pre of the callee views below)."""
+def installed(st, s, orig, or_put_back=False):
+    """Checked form of the same state (call-pre of the callee views below).  or_put_back: SIGWINCH / SIGTSTP may also be
+    back with the application already (the state after a suspend, in which _sigcont_handler calls signal_restore)."""
     t = table(st)
     hooked = s._sigcont_hooked
-    return (is_own(t[WINCH], s, WINCH) and is_own(t[TSTP], s, TSTP) and s._prev_sigwinch_handler is orig[WINCH] and s._prev_sigtstp_handler is orig[TSTP]
+    mine = lambda sig: is_own(t[sig], s, sig) or (or_put_back and t[sig] is put_back(orig[sig]))  # noqa: E731
+    return (mine(WINCH) and mine(TSTP) and s._prev_sigwinch_handler is orig[WINCH] and s._prev_sigtstp_handler is orig[TSTP]
             and isinstance(hooked, bool) and ((is_own(t[CONT], s, CONT) and s._prev_sigcont_handler is orig[CONT]) if hooked else t[CONT] is orig[CONT]))
 
 
@@ -223,8 +226,14 @@ class signal_init_handlers:
 
 
 def _restore_setup(st, self_obj, vals):
+    """Three entry states: as signal_init left it (from Screen._stop); the same with SIGCONT hooked; and the state after a
+    suspend (SIGCONT hooked, SIGWINCH / SIGTSTP back with the application: from _sigcont_handler)."""
     st.ghost["screen_obj"] = self_obj
-    _installed_state(st, self_obj, hooked=bool(st.fork(2)))
+    k = st.fork(3)
+    orig = _installed_state(st, self_obj, hooked=k > 0)
+    if k == 2:
+        t = table(st)
+        t[TSTP], t[WINCH] = put_back(orig[TSTP]), put_back(orig[WINCH])
 
 
 def _restore_claims(old, s):
@@ -286,7 +295,7 @@ class restore_view:
     self_shape = SIGSCR
 
     def requires(s, a):
-        return installed(cur(), s, cur().ghost["orig"])
+        return installed(cur(), s, cur().ghost["orig"], or_put_back=True)
 
     def effects(old, s, a, result):
         _restore_effect(cur(), s)
@@ -329,7 +338,8 @@ class start_view:
 
 
 _VIEWS = {PRD + "Screen._stop": stop_view, PRD + "Screen._start": start_view, PRD + "Screen.signal_restore": restore_view,
-          DCM + "BaseScreen.start": None, DCM + "BaseScreen.stop": None}  # (BaseScreen.start / stop: bodies executed)
+          # BaseScreen.start / stop and the SIGWINCH handlers: bodies executed (their own contracts speak about the events of those bodies)
+          DCM + "BaseScreen.start": None, DCM + "BaseScreen.stop": None, PRD + "Screen._sigwinch_handler": None, RDB + "Screen._sigwinch_handler": None}
 
 
 def _real(ip, st, f, args, kwargs):
@@ -374,7 +384,7 @@ class sigtstp_handler:
         if names != ["_stop", "signal", "kill"]:
             return
         _k, pid, sig, tbl, modes, eventual_modes, started = kills[0]
-        yield "SIGTSTP-is-sent-once-more-to-this-very-process", both(sig == TSTP, eq(pid, st.ghost["pid"]))
+        yield "SIGTSTP-is-sent-once-more-to-this-very-process", both(sig == TSTP, eq(pid, st.ghost["pid"]) if "pid" in st.ghost else False)
         yield "where-the-previous-or-default-handling-acts-not-this-screens", tbl[TSTP] is put_back(orig[TSTP]) and not is_own(tbl[TSTP], s, TSTP)
         yield "the-applications-SIGWINCH-handling-is-back-too", tbl[WINCH] is put_back(orig[WINCH])
         yield "by-then-the-screen-is-stopped", started == False  # noqa: E712
@@ -401,31 +411,38 @@ def _cont_setup(st, self_obj, vals):
 
 def _cont_claims(old, s, a, raised):
     st = cur()
-    t, orig = table(st), st.ghost["orig_at_entry"]
-    calls = [ev for ev in st.trace if ev[0] == "app-handler"]
-    names = [ev[0] for ev in st.trace if ev[0] in ("signal", "app-handler", "_start", "pipe.send")]
+    orig = st.ghost["orig_at_entry"]
+    names = [ev[0] for ev in st.trace if ev[0] in ("signal_restore", "signal", "app-handler", "_start", "pipe.send")]
+    restores = [ev for ev in st.trace if ev[0] == "signal_restore"]
+    starts = [ev for ev in st.trace if ev[0] == "_start"]
     prev = orig[CONT]
     chained = isinstance(prev, V.SOpaque)
-    first3 = [ev for ev in st.trace if ev[0] == "signal"][:3]
-    yield "the-applications-handlers-are-put-back-first", (names[:3] == ["signal"] * 3 and [ev[1] for ev in first3] == [TSTP, CONT, WINCH]
-                                                           and first3[1][2] is (prev or _signal.SIG_DFL if not chained else first3[1][2]))
+    allcalls = [ev for ev in st.trace if ev[0] == "app-handler"]
+    calls = [ev for ev in allcalls if chained and ev[1] is prev]        # of the application's SIGCONT handler
+    wcalls = [ev for ev in allcalls if not (chained and ev[1] is prev)]  # of its SIGWINCH handler (chained by _sigwinch_handler)
+    yield "the-applications-handlers-are-put-back-first", (names[:1] == ["signal_restore"] and len(restores) == 1
+                                                           and all(restores[0][1][sig] is put_back(orig[sig]) for sig in SIGS) and "signal" not in names)
     if chained:
-        yield "its-own-SIGCONT-handler-runs-once-with-the-signals-arguments", len(calls) == 1 and calls[0][1] is prev and calls[0][2][0] is a.signum and calls[0][2][1] is a.frame
+        yield "then-its-own-SIGCONT-handler-runs-once-with-the-signals-arguments", (
+            len(calls) == 1 and names[1:2] == ["app-handler"] and allcalls[0] is calls[0] and calls[0][2][0] is a.signum and calls[0][2][1] is a.frame)
         if calls:
-            yield "with-SIGCONT-no-longer-hooked-by-this-screen", not is_own(calls[0][3][CONT], s, CONT) and s._sigcont_hooked is False
+            yield "with-SIGCONT-no-longer-hooked-by-this-screen", not is_own(calls[0][3][CONT], s, CONT) and calls[0][3][CONT] is prev
     else:
         yield "nothing-to-chain-to-when-the-application-had-no-handler-of-its-own", not calls
-    if raised:
-        yield "only-the-applications-own-handler-raises-and-the-screen-stays-stopped", both(len(calls) == 1, "_start" not in names, s._started == False)  # noqa: E712
+    if raised and not starts:
+        yield "the-applications-SIGCONT-handler-raised-and-the-screen-stays-stopped", both(len(calls) == 1, not wcalls, s._started == False, s._sigcont_hooked is False)  # noqa: E712
         return
-    starts = [ev for ev in st.trace if ev[0] == "_start"]
-    yield "then-the-screen-is-started-again", both(len(starts) == 1, s._started == True, names.index("_start") > (names.index("app-handler") if calls else 2) if starts else False)  # noqa: E712
-    yield "with-this-screens-handlers-installed-over-whatever-is-in-place-by-then", installed(st, s, st.ghost["orig"])
+    yield "then-the-screen-is-started-again", both(len(starts) == 1 and names[1 + len(calls):2 + len(calls)] == ["_start"], s._started == True)  # noqa: E712
+    yield "with-this-screens-handlers-installed-over-whatever-is-in-place-by-then", both(installed(st, s, st.ghost["orig"]), s.m_signals == True)  # noqa: E712
     yield "paste-and-focus-reporting-as-configured", both(eq(M.eventual(s, "m_paste"), old.bracketed_paste_mode), eq(M.eventual(s, "m_focus"), old.focus_reporting))
     sends = [ev for ev in st.trace if ev[0] == "pipe.send"]
-    yield "and-a-resize-is-announced-last", both(s._resized == True, s.screen_buf is None, names[-1] in ("pipe.send", "_start", "app-handler") , len(sends) <= 1,  # noqa: E712
+    wprev = st.ghost["orig"][WINCH]
+    yield "and-a-resize-is-announced-last", both(s._resized == True, s.screen_buf is None, names[2 + len(calls):] == ["pipe.send"] * len(sends) + ["app-handler"] * len(wcalls), len(sends) <= 1,  # noqa: E712
                                                   implies(neg(st.ghost["resized_at_entry"]), len(sends) == 1 and sends[0][1] == b"R"),
                                                   implies(st.ghost["resized_at_entry"], not sends))
+    yield "passed-on-to-the-applications-SIGWINCH-handler-if-it-has-one", (len(wcalls) == 1 and wcalls[0][1] is wprev) if isinstance(wprev, V.SOpaque) else not wcalls
+    if raised:
+        yield "only-the-applications-SIGWINCH-handler-raised-the-screen-is-up", len(wcalls) == 1
 
 
 @contract(PRD + "Screen._sigcont_handler", property="C12", replayable=False,
